@@ -52,6 +52,9 @@ func genC20(seed int64, kind string, idx int) c20Case {
 	r := newRand(seed, "C20/"+kind, idx)
 	ts := uint64(1000 + r.Intn(1<<30))
 	s := opSpec{Kind: kind, DB: []string{"", "default", "d1"}[r.Intn(3)], Ts: ts, ID: int64(idx*4 + 10)}
+	if !isEvent(kind) {
+		s.PreStamp = []int{0, 0, 1, 2}[r.Intn(4)]
+	}
 	c := c20Case{Idx: idx}
 	pickMembers := func(prefix string) []string {
 		n := 1 + r.Intn(5)
@@ -261,7 +264,7 @@ func minus(l, drop []string) []string {
 
 func runC20(tier string) *vf.Run {
 	run := vf.NewRun("C20", tier, "exploration")
-	run.Rule = "case = one operation of one of the 22 kinds (18 op-message types, 4 API events) with randomly filled identity fields (names over a small alphabet with non-ASCII letters, index extra params, partition / collection lists of 1-5 members each live, dropped or unknown to the readiness tables, replica numbers, resource groups, user/role/privilege tuples, password strings of 4 encodings, collection schemas of 2-8 fields over 15 data types, shard numbers, consistency levels, properties, replicate id on/off), delivered to a fresh writer whose tables are seeded accordingly; plus malformed packs (no message, two messages of supported kinds, each of several unsupported types). Non-trivial = a case that reached the downstream or was a malformed pack; distinct by (kind, #live/#dropped/#unknown members, replicate id)."
+	run.Rule = "case = one operation of one of the 22 kinds (18 op-message types, 4 API events) with randomly filled identity fields (names over a small alphabet with non-ASCII letters, index extra params, partition / collection lists of 1-5 members each live, dropped or unknown to the readiness tables, replica numbers, resource groups, source messages that already carry the replicate info of an upstream replication or a non-replicate one, user/role/privilege tuples, password strings of 4 encodings, collection schemas of 2-8 fields over 15 data types, shard numbers, consistency levels, properties, replicate id on/off), delivered to a fresh writer whose tables are seeded accordingly; plus, with and without a name mapping, a partition (collection) dropped through a drop EVENT handled by the same writer followed by an older LoadPartitions / ReleasePartitions (Flush) that still lists it; plus malformed packs (no message, two messages of supported kinds, each of several unsupported types). Non-trivial = a case that reached the downstream or was a malformed pack; distinct by (kind, #live/#dropped/#unknown members, replicate id)."
 	run.Assumptions = []string{
 		"the recording handler accepts every call, so members unknown to the tables are probed, found and kept",
 		"op-message packs are built as the replicate-channel consumer builds them: one end position whose timestamp equals the message's timestamp",
@@ -282,6 +285,7 @@ func runC20(tier string) *vf.Run {
 		}
 	}
 	c20Malformed(run)
+	c20DropThenList(run)
 	for _, k := range kinds {
 		run.Floor("kind_"+k, run.Pick(300, 3000)/3)
 	}
@@ -289,6 +293,8 @@ func runC20(tier string) *vf.Run {
 	run.Floor("lists_all_dropped", 5)
 	run.Floor("lists_with_unknown_members", 50)
 	run.Floor("create_collection_with_replicate_id", 10)
+	run.Floor("pre_stamped_source_messages", 300)
+	run.Floor("drop_event_then_older_list_operation", 30)
 	run.Floor("malformed_no_message", 1)
 	run.Floor("malformed_two_messages", 10)
 	run.Floor("malformed_unsupported_type", 3)
@@ -344,6 +350,9 @@ func c20One(run *vf.Run, c *c20Case) {
 		return
 	}
 	run.Count("kind_"+kind, 1)
+	if s.PreStamp != 0 {
+		run.Count("pre_stamped_source_messages", 1)
+	}
 	run.Nontrivial(fmt.Sprintf("%s|%d/%d/%d|rid=%v", kind, len(live), len(c.Dropped), len(c.Unknown), c.ReplicateID != ""))
 	call := np[0]
 	if !isEvent(kind) && string(ckpt) != string(posID(s.ID)) {
@@ -527,4 +536,91 @@ func c20Malformed(run *vf.Run) {
 		try("unsupported-type", "malformed_unsupported_type", buildOpPack(300, int64(50+i), m), k)
 	}
 	_ = sort.Strings
+}
+
+// c20DropThenList: "partitions already dropped being removed from lists" when the drop was learnt through an EVENT
+// handled by this writer (not through the seeded tables), with and without a name mapping: drop-partition event for
+// p1 at time T, then LoadPartitions / ReleasePartitions stamped before T that still list p1 next to live
+// partitions; likewise a drop-collection event followed by an older Flush. The recording handler answers every probe
+// positively, so a member the writer does not find in its tables is kept.
+func c20DropThenList(run *vf.Run) {
+	mappings := []struct {
+		name string
+		m    map[string]string
+	}{
+		{"none", nil},
+		{"exact", map[string]string{"d1.c1": "d2.c1x"}},
+		{"whole-db", map[string]string{"d1.*": "d2.*"}},
+		{"exact-same-db", map[string]string{"d1.c1": "d1.c9"}},
+	}
+	n := run.Pick(10, 100)
+	for _, mp := range mappings {
+		for _, kind := range []string{"LoadPartitions", "ReleasePartitions", "Flush"} {
+			for i := 0; i < n; i++ {
+				r := newRand(run.Seed, "C20/drop-then-list/"+mp.name+"/"+kind, i)
+				run.Eval(1)
+				T := uint64(5000 + r.Intn(1<<20))
+				h := &wfakes.Handler{}
+				seed := map[string]map[string]uint64{util.DroppedDatabaseKey: {}, util.DroppedCollectionKey: {}, util.DroppedPartitionKey: {}}
+				for _, live := range []string{"p0", "p2"} {
+					ck, _ := util.GetPartitionInfoKeys(live, "c1", "d1")
+					seed[util.DroppedPartitionKey][ck] = 0
+				}
+				for _, live := range []string{"c0", "c2"} {
+					ck, _ := util.GetCollectionInfoKeys(live, "d1")
+					seed[util.DroppedCollectionKey][ck] = 0
+				}
+				w, err := newWriter(h, wcfg{Mapping: mp.m, Dropped: seed})
+				if err != nil {
+					run.Inconclusive(err.Error())
+					return
+				}
+				bad := func(what, desc string) {
+					run.Violate("C20/"+kind+"/"+what, fmt.Sprintf("[drop event then older list operation, mapping %s %v] %s", mp.name, mp.m, desc), map[string]any{"mapping": mp.m, "kind": kind, "drop_ts": T})
+				}
+				var op opSpec
+				if kind == "Flush" {
+					ev := opSpec{Kind: evDropCollection, DB: "d1", Coll: "c1", Ts: T, ID: 4000 + int64(i)}
+					if _, err := deliver(w, &ev); err != nil {
+						bad("error-without-fault", "drop-collection event: "+err.Error())
+						continue
+					}
+					op = opSpec{Kind: "Flush", DB: "d1", Colls: []string{"c0", "c1", "c2"}, Ts: T - uint64(1+r.Intn(1000)), ID: 5000 + int64(i)}
+				} else {
+					ev := opSpec{Kind: evDropPartition, DB: "d1", Coll: "c1", Parts: []string{"p1"}, Ts: T, ID: 4000 + int64(i)}
+					if _, err := deliver(w, &ev); err != nil {
+						bad("error-without-fault", "drop-partition event: "+err.Error())
+						continue
+					}
+					op = opSpec{Kind: kind, DB: "d1", Coll: "c1", Parts: []string{"p0", "p1", "p2"}, Ts: T - uint64(1+r.Intn(1000)), ID: 5000 + int64(i)}
+				}
+				before := len(h.Calls())
+				if _, err := deliver(w, &op); err != nil {
+					bad("error-without-fault", fmt.Sprintf("%s stamped %d after the drop event stamped %d: %v", kind, op.Ts, T, err))
+					continue
+				}
+				np := nonProbe(h.Calls()[before:])
+				if len(np) != 1 || np[0].Kind != callKindOf[kind] {
+					bad("not-exactly-one-request-of-its-kind", fmt.Sprintf("expected exactly one %s request, got [%s]", callKindOf[kind], names(np)))
+					continue
+				}
+				run.Count("drop_event_then_older_list_operation", 1)
+				run.Nontrivial("drop-then-list|" + mp.name + "|" + kind)
+				switch q := np[0].Req.(type) {
+				case *milvuspb.LoadPartitionsRequest:
+					if !strsEq(q.GetPartitionNames(), []string{"p0", "p2"}) {
+						bad("partition-names", fmt.Sprintf("p1 was dropped by an event stamped %d handled by this writer; LoadPartitions stamped %d names %v, expected [p0 p2]", T, op.Ts, q.GetPartitionNames()))
+					}
+				case *milvuspb.ReleasePartitionsRequest:
+					if !strsEq(q.GetPartitionNames(), []string{"p0", "p2"}) {
+						bad("partition-names", fmt.Sprintf("p1 was dropped by an event stamped %d handled by this writer; ReleasePartitions stamped %d names %v, expected [p0 p2]", T, op.Ts, q.GetPartitionNames()))
+					}
+				case *milvuspb.FlushRequest:
+					if !strsEq(q.GetCollectionNames(), []string{"c0", "c2"}) {
+						bad("collection-names", fmt.Sprintf("c1 was dropped by an event stamped %d handled by this writer; Flush stamped %d names %v, expected [c0 c2]", T, op.Ts, q.GetCollectionNames()))
+					}
+				}
+			}
+		}
+	}
 }
